@@ -129,11 +129,12 @@ class Check:
         targets = list(self.cfg.get("lean_targets", []))
         t0 = time.time()
         self.driver_ok = True
-        rc, out, dt = run(["lake", "build", "driver"], cwd=LEAN, timeout=3000)
-        if rc != 0:
-            self.driver_ok = False
-            self.broken.append({"kind": "model-build", "name": "driver", "detail": tail_errors(out)})
-            log("driver build FAILED:\n" + tail_errors(out))
+        for st in self.cfg.get("streams", []):
+            rc, out, dt = run(["lake", "build", "drv_" + st], cwd=LEAN, timeout=3000)
+            if rc != 0:
+                self.driver_ok = False
+                self.broken.append({"kind": "model-build", "name": "drv_" + st, "detail": tail_errors(out)})
+                log("driver build drv_%s FAILED:\n%s" % (st, tail_errors(out)))
         self.built = {}
         for tgt in targets:
             rc, out, dt = run(["lake", "build", tgt], cwd=LEAN, timeout=3000)
@@ -171,7 +172,7 @@ class Check:
                 if all(self.built.get(x) for x in targets):
                     self.broken.append({"kind": "proof", "name": t, "detail": "theorem not found in built modules"})
         # forbidden tokens in every source file the targets depend on
-        files = module_files(targets + ["Driver.Main"])
+        files = module_files(targets + [drv_module(st) for st in self.cfg.get("streams", [])])
         hits = []
         for m, p in files.items():
             with open(p) as f:
@@ -240,10 +241,10 @@ class Check:
                     except json.JSONDecodeError:
                         res["oracle"].append({"fingerprint": "unparsable", "input": line[:200], "detail": "", "line": 0})
         if self.driver_ok:
-            drv = os.path.join(LEAN, ".lake", "build", "bin", "driver")
+            drv = os.path.join(LEAN, ".lake", "build", "bin", "drv_" + stream)
             t1 = time.time()
             with open(os.path.join(out_dir, "ops.txt"), "rb") as fi, open(os.path.join(out_dir, "model.txt"), "wb") as fo:
-                p = subprocess.run([drv, stream], stdin=fi, stdout=fo, stderr=subprocess.PIPE, timeout=to)
+                p = subprocess.run([drv], stdin=fi, stdout=fo, stderr=subprocess.PIPE, timeout=to)
             res["driver_s"] = round(time.time() - t1, 1)
             if p.returncode != 0:
                 res["driver_crash"] = p.stderr.decode("utf-8", "replace")[-1000:]
@@ -348,7 +349,7 @@ class Check:
         coverage = {
             "obligations": len(obl),
             "discharged": sum(1 for o in obl if o["ok"]),
-            "checker_cmd": "cd /verif/lean && lake build %s driver && lake env lean <#print axioms audit>; then fv-harness | driver | diff" % " ".join(cfg.get("lean_targets", [])),
+            "checker_cmd": "cd /verif/lean && lake build %s drv_<stream> && lake env lean <#print axioms audit>; then fv-harness | driver | diff" % " ".join(cfg.get("lean_targets", [])),
             "trusted_base": cfg.get("trusted_base", []) + ["Lean 4.33 kernel", "axioms allowed: propext, Classical.choice, Quot.sound (audited per theorem)", "translators in tools/gen (regex extraction)", "correspondence check: fv-harness + driver + diff (differential testing)"],
             "obligation_list": obl,
             "rule": cfg.get("rule", ""),
@@ -394,6 +395,14 @@ class Check:
             self.pid, self.tier, self.seed, sum(1 for o in self.obligations if o[1]), nob,
             sum(r.get("lines", 0) for r in self.stream_results), len(self.oracle), time.time() - self.t0))
         return 1 if self.violations else 0
+
+
+def drv_module(stream):
+    d = os.path.join(LEAN, "FuelVerif", "Drv")
+    for f in os.listdir(d):
+        if f.endswith(".lean") and f[:-5].lower() == stream:
+            return "FuelVerif.Drv." + f[:-5]
+    return "FuelVerif.Drv." + stream
 
 
 def tail_errors(out):
